@@ -20,6 +20,7 @@ SingleNext ==
        \/ LFlush(h)      /\ hist' = Append(hist, Ev("lflush", h, "-", "-", "Ok"))
        \/ LReset(h)      /\ hist' = Append(hist, Ev("lreset", h, "-", "-", "Ok"))
        \/ \E g \in Handles : LClone(h, g) /\ hist' = Append(hist, Ev("lclone", h, g, "-", "Ok"))
+       \/ \E g \in Handles : Specified(loc[g].pend) /\ LCloneFrom(h, g, Kind = "hist") /\ hist' = Append(hist, Ev("lclonefrom", h, g, "-", "Ok"))
        \/ Specified(loc[h].pend) /\ LDrop(h, Kind = "hist") /\ hist' = Append(hist, Ev("ldrop", h, "-", "-", "Ok"))
        \* the same drop, performed by the stack unwinding of a panic that the process survives
        \/ Kind = "hist" /\ LDrop(h, TRUE) /\ hist' = Append(hist, Ev("ldrop_unwinding", h, "-", "-", "Ok"))
